@@ -480,6 +480,31 @@ pub fn check(case: &Case, idx: u64, acc: &mut Acc) {
                 }
                 run_system(&s2, false, false, case, &format!("tiny{}/magnitude{}", n, vk), idx, acc);
             }
+            // float systems at the ends of the double range (whole system scaled: the solution is unchanged; an
+            // intermediate square or product that leaves the range would show). Plain floats only: with unit
+            // gradients on b the derivatives themselves would legitimately leave the range.
+            for (vk, scale) in [1e-300_f64, 1e-200, 1e150, 1e300].iter().enumerate() {
+                let mut s2 = pattern_system(*n, *pattern);
+                s2.a[*i][*j] *= 1e-3;
+                let x0 = match (cond(&s2.a), inverse(&s2.a)) {
+                    (Some(c), Some(inv)) if c < 1e4 => (0..*n).map(|r| (0..*n).map(|q| inv[r][q] * s2.b[q]).sum::<f64>()).collect::<Vec<f64>>(),
+                    _ => continue,
+                };
+                let a = Array2::from_shape_fn((*n, *n), |(r, q)| s2.a[r][q] * scale);
+                let b = Array1::from_shape_fn(*n, |r| s2.b[r] * scale);
+                acc.eval();
+                match guarded(|| (dsolve(&a.view(), &b.view(), false), fdsolve(&a.view(), &b.view(), false))) {
+                    Err(msg) => acc.violate(&format!("tiny{}/extreme-scale{}/panic", n, vk), idx, serde_json::to_value(case).unwrap(), json!("a solution"), json!(msg)),
+                    Ok((x1, x2)) => {
+                        let m = x0.iter().fold(0.0_f64, |m, v| m.max(v.abs()));
+                        for (nm, x) in [("dsolve", &x1), ("fdsolve", &x2)] {
+                            if (0..*n).any(|r| !close_scaled(x[r], x0[r], 1e-9, m)) {
+                                acc.violate(&format!("tiny{}/extreme-scale{}/{}", n, vk, nm), idx, serde_json::to_value(case).unwrap(), json!({"scale": scale, "want": x0}), json!(x.to_vec()));
+                            }
+                        }
+                    }
+                }
+            }
             if idx % 211 == 0 {
                 acc.sample(|| serde_json::to_value(case).unwrap());
             }
@@ -629,7 +654,7 @@ pub fn run(ctx: &Ctx, replay_file: Option<String>) -> ! {
          (float matrix) for right-hand sides of each type, under four taggings (every entry its own variable incl. \
          structurally zero entries, one shared variable, one variable per row, no variables on A); the float and \
          row-tagged Dual systems are also handed over in column-major memory order (transposed view, Fortran-order \
-         array); 2x2 / 3x3 patterns are repeated with one non-zero entry scaled to 1e-11 (tiny pivots), and again with that entry scaled by 1e-7 / 1e-15 / 1e-4 / 1 and the whole system (right-hand side included) by 1 / 1e9 / 1e-9 / 1e-9 / 1e9. Oracle: the residual \
+         array); 2x2 / 3x3 patterns are repeated with one non-zero entry scaled to 1e-11 (tiny pivots), and again with that entry scaled by 1e-7 / 1e-15 / 1e-4 / 1 and the whole system (right-hand side included) by 1 / 1e9 / 1e-9 / 1e-9 / 1e9. The same float systems scaled as a whole by 1e-300, 1e-200, 1e150, 1e300 must give the unscaled solution. Oracle: the residual \
          A x - b (A^T A x - A^T b for least squares) recomputed in a dense reference arithmetic vanishes in value, every \
          first and every second derivative component, each against its own scale sum |A||x| + |b|; the solution of a \
          row-permuted system equals that of the unpermuted one, also when its rows are scaled by factors from 2e-8 to 7e7 (two scale vectors, one with the small rows first). Non-trivial: systems in which reference partial \
